@@ -51,8 +51,7 @@ Print Assumptions C09_if_true_program.
 
 (* a call `g()` of `fn g() -> t { return z; }` at ANY expression position of ANY statement of ANY other function, replaced
    by the literal z (the rewrite of the property read right to left): whenever the program with the call finishes within
-   the fuel, the program with the literal has the same outcome with the same fuel.  (The converse needs one more unit of
-   fuel per call on the deepest call chain and is not proved.) *)
+   the fuel, the program with the literal has the same outcome with the same fuel (converse and equivalence below). *)
 Theorem C09_literal_as_call_program :
   forall structs p f fd g t z K s C,
   nth_error p f = Some fd -> g <> f ->
@@ -62,6 +61,29 @@ Theorem C09_literal_as_call_program :
                run structs (upd_body p f (splug K s (eplug C (ECall g [])))) fuel.
 Proof. exact lit_call_program. Qed.
 Print Assumptions C09_literal_as_call_program.
+
+(* the converse, with one more unit of fuel for the program that contains the call *)
+Theorem C09_literal_as_call_program_conv :
+  forall structs p f fd g t z K s C,
+  nth_error p f = Some fd -> g <> f ->
+  nth_error p g = Some {| fparams := []; fret := TInt t; fbody := SReturn (Some (ELit t z)) |} ->
+  forall fuel, run structs (upd_body p f (splug K s (eplug C (ELit t z)))) fuel <> OutOfFuel ->
+               run structs (upd_body p f (splug K s (eplug C (ECall g [])))) (S fuel) =
+               run structs (upd_body p f (splug K s (eplug C (ELit t z)))) fuel.
+Proof. exact lit_call_program_conv. Qed.
+Print Assumptions C09_literal_as_call_program_conv.
+
+(* hence: replacing a literal by a call to a function returning it (at ANY expression position of ANY statement of ANY other
+   function) does not change the set of finished outcomes of the program - output lines and termination kind *)
+Theorem C09_literal_as_call_program_equiv :
+  forall structs p f fd g t z K s C,
+  nth_error p f = Some fd -> g <> f ->
+  nth_error p g = Some {| fparams := []; fret := TInt t; fbody := SReturn (Some (ELit t z)) |} ->
+  forall r, r <> OutOfFuel ->
+    ((exists fuel, run structs (upd_body p f (splug K s (eplug C (ECall g [])))) fuel = r) <->
+     (exists fuel, run structs (upd_body p f (splug K s (eplug C (ELit t z)))) fuel = r)).
+Proof. exact lit_call_program_equiv. Qed.
+Print Assumptions C09_literal_as_call_program_equiv.
 
 (* non-vacuity of the program-level statements: a two-function program whose main prints g() + 1 inside a loop body *)
 Theorem C09_program_nonvacuous :
